@@ -111,6 +111,8 @@ class Executor:
         if self.pos < len(self.trace):
             k = self.trace[self.pos]
         else:
+            if not getattr(self, 'exploring', False) and n > 1:
+                raise Unsupported(f'fork outside path exploration ({label}): postconditions must not branch')
             k = 0
             self.trace.append(0)
             if not self.in_summary_probe:
@@ -251,6 +253,14 @@ class Executor:
         """run(ex) -> value (or raises SymRaise). returns list[Outcome]"""
         outcomes = []
         self.pending = [[]]
+        n = 0
+        self.exploring = True
+        try:
+            return self._explore_loop(run, outcomes)
+        finally:
+            self.exploring = False
+
+    def _explore_loop(self, run, outcomes):
         n = 0
         while self.pending:
             tr = self.pending.pop()
@@ -444,6 +454,15 @@ class Executor:
                     return v
                 except KeyError:
                     pass
+            if getattr(obj, 'opaque_copy', False) and attr not in obj.frozen_missing:
+                # attribute of a (deep) copy of an opaque object = (deep) copy of the original's attribute
+                from . import models
+                deep = obj.label.startswith('deepcopy(')
+                v = self.getattr_(obj.copy_of, attr, node)
+                v = models.copy_(self, v, node, deep) if deep else v
+                obj.fields[attr] = v
+                self.push_undo(lambda: obj.fields.pop(attr, None))
+                return v
             if obj.prov == 'fresh' or attr in obj.frozen_missing or getattr(obj, 'closed', False):
                 raise SymRaise(AttributeError, (f'{obj} has no attribute {attr}',), origin=self.where(node))
             raise Unsupported(f'attribute {attr} of {obj} not described by the contract')
